@@ -1,3 +1,4 @@
+//go:build verif
 // +build verif
 
 package main
@@ -25,8 +26,10 @@ func swCursor(w io.Writer) (int64, bool) {
 	return 0, false
 }
 
-func hookSelect32Single(ws []uint64, sidx []int32, i int32) int32 { return bitmap.VerifSelect32Single(ws, sidx, i) }
-func hookIndexSelectU64(w uint64) uint64                          { return bitmap.VerifIndexSelectU64(w) }
+func hookSelect32Single(ws []uint64, sidx []int32, i int32) int32 {
+	return bitmap.VerifSelect32Single(ws, sidx, i)
+}
+func hookIndexSelectU64(w uint64) uint64 { return bitmap.VerifIndexSelectU64(w) }
 func hookSelectU64Indexed(w, idx, i uint64) int32 {
 	r, _ := bitmap.VerifSelectU64Indexed(w, idx, i)
 	return r
